@@ -57,7 +57,7 @@ def meta(tier):
         'rule': 'programs: every history over the 11-symbol line alphabet up to the depth bound under 5 configurations '
                 '(plain / predefined data block / non-zero default origin / a GLOBAL zone ending at 13, so that windows reach beyond the addressable memory / a GLOBAL zone starting at 4, so that windows start below it) that the reference accepts; windows: every start in '
                 '[0, top+2] x every end in {absent} U [start-1, top+2] (top = highest emitted address) x fill values, the number of -v flags (0..3) rotating with the window, every other window written over an existing 25-byte file; '
-                'non-trivial = a window that cuts through a multi-byte line, or covers a gap / muted byte, or lies beyond the code; '
+                'plus the repository\'s example programs under their own definitions (quick: every third), windows from a boundary set around the first, middle and last emitted address, each the slice of the whole memory map; non-trivial = a window that cuts through a multi-byte line, or covers a gap / muted byte, or lies beyond the code; '
                 'states = distinct (memory map, muted map) pairs',
         'bounds': {'alphabet': [R.render_stmt(s) for s in sigma(0)], 'depth': 2 if q else 3,
                    'depth_single_fill': 3 if q else 4, 'fills': FILLS, 'configs': [c[0] for c in CONFIGS]},
@@ -76,6 +76,7 @@ def shard(acc, tier, idx, n):
     q = tier == 'quick'
     d_all = 2 if q else 3
     d_one = 3 if q else 4
+    corpus_windows(acc, idx, n, q)
     for ci, (cname, params) in enumerate(CONFIGS):
         isa = isa_of(params)
         rejected = set()
@@ -119,6 +120,50 @@ def shard(acc, tier, idx, n):
                         acc.judge(clause=clause, nontrivial_key=(ci, h, start, end, fill) if (cuts or gap) else None)
             acc.sample({'config': cname, 'program': text['main.asm'], 'memory_map': {str(k): v for k, v in sorted(ref.mem.items())},
                         'windows': f'start 0..{top + 2} x end absent|start-1..{top + 2} x fills {fills}'})
+
+
+def corpus_windows(acc, idx, n, q):
+    """The repository's example programs under their own definitions: every window from a boundary set is the slice of the whole
+    memory map (taken from two whole images with different fill values) padded with the fill value."""
+    from mc import corpus
+    progs = corpus.programs()
+    ctr = 0
+    for pi, prog in enumerate(progs):
+        if q and pi % 3:
+            continue            # quick: every third example program (all definitions are still represented)
+        whole = [acc.run(corpus.case_for(prog, fill=0)), acc.run(corpus.case_for(prog, fill=0xFF))] if pi % n == idx else None
+        if whole is None:
+            continue
+        acc.transition(2)
+        if any(o.status != 'OK' or o.image is None for o in whole) or len(whole[0].image) != len(whole[1].image):
+            acc.dc(f'example program {prog[0]} is not assembled by this tree')
+            continue
+        mem = {i: x for i, (x, y) in enumerate(zip(whole[0].image, whole[1].image)) if x == y}
+        if not mem:
+            continue
+        lo, hi = min(mem), max(mem)
+        mid = sorted(mem)[len(mem) // 2]
+        starts = sorted({0, lo, lo + 1, mid, hi, hi + 1})
+        for start in starts:
+            for end in [None] + sorted({start - 1, start, lo + 2, mid + 1, hi - 1, hi, hi + 1, hi + 17} - set(range(0, start - 1))):
+                if end is not None and (end < start - 1 or end < 0):
+                    continue            # -e -1 means "absent" on the command line
+                ctr += 1
+                fill = (0xEE, 0x00, 0x5A)[ctr % 3]
+                case = corpus.case_for(prog, start=start, end=end, fill=fill, verbose=ctr % 3, preseed=ctr % 2 == 0)
+                out = acc.run(case)
+                acc.transition()
+                last = end if end is not None else hi
+                want = bytes(mem.get(a, fill) for a in range(start, last + 1))
+                spec = {'expect': 'OK', 'image_hex': want.hex(), 'program': prog[0], 'window': [start, end], 'fill': fill}
+                msg = judge_expect(spec, [out])
+                if msg:
+                    if len(msg) > 400:
+                        msg = msg[:400] + '...'
+                    acc.violation([case], spec, f'example program {prog[0]} window start={start} end={end} fill={fill}: {msg}', [out])
+                acc.judge(clause='default-end' if end is None else ('empty-window' if end < start else 'window'),
+                          nontrivial_key=('corpus', prog[0], start, end))
+        acc.state(('corpus', prog[0]))
 
 
 def judge(spec, outcomes):
